@@ -466,7 +466,7 @@ func newC34Base(name string, typ uint, b []byte) *c34Base {
 
 func TestC34(t *testing.T) {
 	rec := evi.New(t, "C34", evi.Exploration,
-		"bases = every real block (Byron EBB and main, Shelley..Conway, Dijkstra) plus blocks generated from them (0..26 transactions, synthesised witness collections / aux data / invalid lists, header commitment recomputed by the harness); mutations of a base WITHOUT touching the commitment accordingly: (a) one byte xor a non-zero mask at a position drawn per region (header commitment slots, rest of header, each committed body component, Byron framing/ssc/extra), exhaustive over all positions for the small real blocks; (b) a different CBOR head form for one node of a region; (c) structural edits (drop/duplicate/swap/rotate transactions in bodies, witnesses or both, aux entries added/dropped/replaced, invalid-index list edits, fee/amount +1, Byron payload/pair/dlg/upd edits, Dijkstra tx list / invalid set / peras / aux edits); (d) header of one generated block on the body of another; oracle = whenever NewBlockFromCbor with body validation accepts, the harness recomputes the commitment from the accepted bytes (xcbor ranges + own blake2b/merkle) and it must equal the header's; non-trivial = mutated bytes differ from the base and still decode with validation skipped; distinct by (base, mutation)")
+		"bases = every real block (Byron EBB and main, Shelley..Conway, Dijkstra) plus blocks generated from them (0..26 transactions, synthesised witness collections / aux data / invalid lists, header commitment recomputed by the harness); mutations of a base WITHOUT touching the commitment accordingly: (a) one byte xor a non-zero mask at a position drawn per region (header commitment slots, rest of header, each committed body component, Byron framing/ssc/extra), exhaustive over all positions for the small real blocks; (b) a different CBOR head form for one node of a region; (c) structural edits (drop/duplicate/swap/rotate transactions in bodies, witnesses or both, aux entries added/dropped/replaced, invalid-index list edits, fee/amount +1, Byron payload/pair/dlg/upd edits, Dijkstra tx list / invalid set / peras / aux edits); (d) header of one generated block on the body of another; (e) an extra trailing element inside any list of a region; (f) special sizes: components of 255/256/65535/65536 bytes, > 64 KiB, 255/256 transactions, flips at the first/last byte and at the 255/256/65535/65536-byte marks of every hashed region; (g) histories on one shared, overwritten input buffer: tampered-then-genuine, genuine-tampered-genuine, malformed in between, all eras forwards/backwards, and every rapid case decodes its genuine base again after the mutant; a block whose body is exactly what its header commits to must never be rejected with a body-hash error; oracle = whenever NewBlockFromCbor with body validation accepts, the harness recomputes the commitment from the accepted bytes (xcbor ranges + own blake2b/merkle) and it must equal the header's; non-trivial = mutated bytes differ from the base and still decode with validation skipped; distinct by (base, mutation)")
 	defer rec.Finish()
 	rec.Assume(
 		"blake2b from golang.org/x/crypto is trusted; xcbor defines the byte ranges of header fields and body segments",
